@@ -1,5 +1,6 @@
-"""Mechanically generated spec corpus: every ordered pair (and every single) of 38 instruction templates in five
-contexts (top level, inside <chunked>, inside a <case>, inside a <case> inside <chunked>, after a <chunked>).
+"""Mechanically generated spec corpus: every ordered pair (and every single) of 38 instruction templates in seven
+contexts (top level, inside <chunked>, inside a <case>, inside a <case> inside <chunked>, after a <chunked>,
+and `byte; <chunked>A</chunked>; B`: raw data ahead of a break-less chunked section with a tail; and `<chunked>A<break/>B</chunked>`).
 
 It widens the *programs* dimension far beyond the hand-written core corpus: the seeded changes that the core
 corpus missed all needed a particular neighbourhood of two instructions.  The tree is written to a temp
@@ -58,7 +59,7 @@ TEMPLATES = [
                    '<break/></chunked></case><case value="Armor"/></switch>', ""),
     ("chunk", '<chunked><field name="{p}cs" type="string"/><break/><field name="{p}cc" type="char"/></chunked>', ""),
 ]
-CONTEXTS = ("T", "K", "S", "Q", "A")     # top, chunKed, caSe, case in chunk (Q), After a chunk
+CONTEXTS = ("T", "K", "S", "Q", "A", "Y", "B")     # top, chunKed, caSe, case in chunk (Q), After a chunk, Y: byte; <chunked>A</chunked>; B
 _made = []
 
 
@@ -71,11 +72,30 @@ atexit.register(_cleanup)
 
 
 def in_chunk(ctx):
-    return ctx in ("K", "Q")
+    return ctx in ("K", "Q", "B")
 
 
 def valid(ctx, a, b):
     """eo-protocol grammar rules for `A B` in the given context (b may be None)."""
+    if ctx == "B":
+        # <chunked> A <break/> B </chunked>: two segments of one chunked section (state must not leak across the break)
+        if b is None:
+            return False
+        fa, fb = TEMPLATES[a][2], TEMPLATES[b][2]
+        return "D" not in fa and "B" not in fa and "B" not in fb
+    if ctx == "Y":
+        # a raw byte, then A alone inside a chunked section (no break of its own around it), then B after the section
+        fa = TEMPLATES[a][2]
+        if "D" in fa or "B" in fa:
+            return False
+        if b is None:
+            return True
+        fb = TEMPLATES[b][2]
+        if "C" in fb:
+            return False
+        if "O" in fa and not ("O" in fb or "D" in fb):
+            return False
+        return True
     fa = TEMPLATES[a][2]
     if "C" in fa and not in_chunk(ctx):
         return False
@@ -91,7 +111,13 @@ def valid(ctx, a, b):
     return True
 
 
-def wrap(ctx, body):
+def wrap(ctx, body, parts=None):
+    if ctx == "Y":
+        a, b = parts
+        return '<field name="hy" type="byte"/><chunked>' + a + "</chunked>" + b
+    if ctx == "B":
+        a, b = parts
+        return "<chunked>" + a + "<break/>" + b + "</chunked>"
     if ctx == "T":
         return body
     if ctx == "K":
@@ -156,8 +182,9 @@ def make(specs, layout="A"):
     core_root = open(os.path.join(CORE, "protocol.xml")).read()
     body = []
     for ctx, a, b in specs:
-        inner = TEMPLATES[a][1].format(p="fa") + (TEMPLATES[b][1].format(p="fb") if b is not None else "")
-        body.append('  <struct name="%s">%s</struct>\n' % (struct_name(ctx, a, b), wrap(ctx, inner)))
+        pa = TEMPLATES[a][1].format(p="fa")
+        pb = TEMPLATES[b][1].format(p="fb") if b is not None else ""
+        body.append('  <struct name="%s">%s</struct>\n' % (struct_name(ctx, a, b), wrap(ctx, pa + pb, (pa, pb))))
     if layout == "A":
         shutil.copy(os.path.join(CORE, "protocol.xml"), os.path.join(out, "protocol.xml"))
         open(os.path.join(out, "net", "protocol.xml"), "w").write(
@@ -176,7 +203,7 @@ def describe(name):
     """human-readable description of a generated struct name"""
     if not name.startswith("Pr") or len(name) < 7:
         return name
-    ctx = {"T": "top level", "K": "in <chunked>", "S": "in <case>", "Q": "in <case> in <chunked>", "A": "after a <chunked>"}.get(name[2], "?")
+    ctx = {"T": "top level", "K": "in <chunked>", "S": "in <case>", "Q": "in <case> in <chunked>", "A": "after a <chunked>", "Y": "byte, then A in <chunked>, then B", "B": "A <break/> B in <chunked>"}.get(name[2], "?")
     a = TEMPLATES[int(name[3:5])][0]
     b = name[5:7]
     return f"{a}" + (f" then {TEMPLATES[int(b)][0]}" if b.isdigit() else "") + f" ({ctx})"
